@@ -8,3 +8,5 @@
 (declare-fun cnt (Int Int) Int)
 (define-fun imin ((a Int) (b Int)) Int (ite (<= a b) a b))
 (define-fun imax ((a Int) (b Int)) Int (ite (>= a b) a b))
+; a field reference exists in a traveler (jsonpath.TravelerPathExists), abstract
+(declare-fun pathExists (Any Str) Bool)
